@@ -4,7 +4,7 @@
    integers used by the correspondence runs).  [wf r c M] = M is an r x c list matrix. *)
 From Coq Require Import List Bool Arith Lia Ring ZArith.
 From QV Require Import Base.Mat Base.Zi C17.Alg C17.Model C17.Spec C17.ZiInst
-  C17.ProofsIdx C17.ProofsVec C17.ProofsPerm C17.ProofsPauli C17.ProofsStine C17.ProofsPath.
+  C17.ProofsIdx C17.ProofsVec C17.ProofsPerm C17.ProofsPauli C17.ProofsStine C17.ProofsPath C17.Historical.
 Import ListNotations.
 
 (* ---- vectorisation orders are bijections (every dimension; system order: every n) *)
@@ -98,6 +98,17 @@ Section Generic.
     mget K (qn_apply_pure K cj d d (mtrans K d d U) rho) j k = kraus_entry K cj d [U] rho j k.
   Proof. intros. now apply (ProofsStine.qchannel_apply_pure_ok K cj SR). Qed.
 
+  (* QuantumChannel.apply, non-pure branch, on QuantumChannel.from_operator(choi, inverse=True) *)
+  Theorem qchannel_apply_nonpure_ok : forall d Ks rho o o', o < d -> o' < d ->
+    mget K (qn_apply K d d (qn_from_operator_inv K d d (kraus_to_choi K cj (Row d) Ks)) rho) o o'
+    = kraus_entry K cj d Ks rho o o'.
+  Proof. intros. now apply (ProofsStine.qchannel_apply_nonpure_ok K cj SR cj0). Qed.
+
+  (* to_pauli_liouville(U, order, pauli_order) = kraus_to_pauli([U], order, pauli_order), row and column *)
+  Theorem to_pauli_liouville_ok : forall ps po col n U,
+    to_pauli_liouville K cj ps po col n U = kraus_to_pauli K cj ps po col n [U].
+  Proof. intros. now apply (ProofsStine.to_pauli_liouville_ok K cj SR). Qed.
+
   (* Pauli basis: orthogonal for every n and every pauli_order (a permutation of the four labels),
      given that the single-qubit table is orthogonal *)
   Section PauliBasis.
@@ -163,6 +174,8 @@ Print Assumptions kraus_reproduce_choi.
 Print Assumptions qchannel_semantics_ok.
 Print Assumptions link_product_ok.
 Print Assumptions qchannel_apply_pure_ok.
+Print Assumptions qchannel_apply_nonpure_ok.
+Print Assumptions to_pauli_liouville_ok.
 Print Assumptions pauli_basis_orthogonal.
 Print Assumptions basis_change_product.
 Print Assumptions to_pauli_from_pauli.
@@ -213,16 +226,6 @@ Proof.
   exact (pauli_basis_orthogonal Ziops zi_conj Zi_SR zi_conj_mul zi_conj_1 zP po zP_orth Hpo n a b Ha Hb).
 Qed.
 
-(* ---- QuantumChannel.apply, non-pure branch, on the documented construction: refuted *)
-Theorem qchannel_apply_nonpure_refuted :
-  exists (Ks : list (mat Zi)) (rho : mat Zi), Forall (wf 2 2) Ks /\ wf 2 2 rho /\
-    z_qn_apply 2 2 (z_qn_from_operator_inv 2 2 (z_kraus_to_choi (Row 2) Ks)) rho <> z_kraus_action 2 Ks rho.
-Proof.
-  exists [[[(1,0); (2,0)]; [(0,3); (4,0)]]]%Z, [[(1,0); (2,1)]; [(5,0); (7,0)]]%Z.
-  split; [repeat constructor|]. split; [repeat constructor|]. exact qchannel_apply_nonpure_refuted_witness.
-Qed.
-Print Assumptions qchannel_apply_nonpure_refuted.
-
 (* ---- path independence over the table of conversion functions: BOUNDED exhaustive instance check
    (n = 1 rank 2, n = 2 rank 1 on permuted qubits; row and column order; all 24 Pauli orderings;
    every ordered pair and every triple of {Choi, Liouville, Pauli-Liouville, chi}) *)
@@ -230,18 +233,3 @@ Theorem path_independence_bounded : all_paths_ok = true /\ length pauli_orders =
 Proof. split; [exact all_paths_ok_true|reflexivity]. Qed.
 Print Assumptions path_independence_bounded.
 
-(* ---- to_pauli_liouville ignores `order` when it builds the basis change: refuted by a 2x2 witness *)
-Local Open Scope Z_scope.
-Definition witness_U : mat Zi := [[(1,0); (2,0)]; [(0,3); (4,0)]].
-Theorem to_pauli_liouville_column_refuted :
-  exists U, wf 2 2 U /\
-    z_to_pauli_liouville [0;1;2;3]%nat true 1%nat U <> z_kraus_to_pauli [0;1;2;3]%nat true 1%nat [U].
-Proof.
-  exists witness_U. split; [repeat constructor|]. vm_compute. intros H. discriminate H.
-Qed.
-Print Assumptions to_pauli_liouville_column_refuted.
-
-(* with `order` forwarded the two functions agree on the witness (bounded instance check) *)
-Example to_pauli_liouville_fixed_witness :
-  z_to_pauli_liouville_fixed [0;1;2;3]%nat true 1%nat witness_U = z_kraus_to_pauli [0;1;2;3]%nat true 1%nat [witness_U].
-Proof. vm_compute. reflexivity. Qed.
